@@ -752,7 +752,7 @@ func genName(g *gen, r *vlib.Rand) {
 		g.add(nameLine("nameenc", weid, absTabs{"de": {1: "M"}}, absTabs{"de-DE": {1: "W", 2: "\U0001F600"}}))
 	}
 	// random structured infos
-	n := vlib.Count(g.tier, 250, 5000)
+	n := vlib.Count(g.tier, 600, 15000)
 	for i := 0; i < n; i++ {
 		var pool []string
 		for j := r.Intn(4); j > 0; j-- {
@@ -816,7 +816,7 @@ func genName(g *gen, r *vlib.Rand) {
 		g.add(vlib.Line(vlib.Atom("namedec"), vlib.Hex(b)))
 	}
 	var raws [][]byte
-	m := vlib.Count(g.tier, 150, 3000)
+	m := vlib.Count(g.tier, 400, 8000)
 	for i := 0; i < m; i++ {
 		var recs []rawNameRec
 		for k := r.Intn(8); k > 0; k-- {
@@ -844,13 +844,13 @@ func genName(g *gen, r *vlib.Rand) {
 		g.add(vlib.Line(vlib.Atom("namedec"), vlib.Hex(raws[len(raws)-1])))
 	}
 	src := append(append([][]byte(nil), encoded...), raws...)
-	k := vlib.Count(g.tier, 600, 12000)
+	k := vlib.Count(g.tier, 1500, 40000)
 	for i := 0; i < k; i++ {
 		b := append([]byte(nil), vlib.Pick(r, src)...)
 		if len(b) > 4000 {
 			continue
 		}
-		switch r.Intn(8) {
+		switch r.Intn(10) {
 		case 0:
 			b = b[:r.Intn(len(b)+1)]
 		case 1:
@@ -882,6 +882,25 @@ func genName(g *gen, r *vlib.Rand) {
 		case 6:
 			if len(b) >= 2 {
 				b[0], b[1] = 0, 1 // version 1: a langTagCount follows the records
+			}
+		case 7, 8: // a record that ends exactly at / one byte beyond the end of the table
+			if len(b) >= 18 {
+				nrec := be16at(b, 2)
+				so := be16at(b, 4)
+				if nrec > 0 && 6+12*nrec <= len(b) {
+					p := 6 + 12*r.Intn(nrec)
+					off := be16at(b, p+10)
+					avail := len(b) - so - off + r.Intn(2)
+					if avail >= 0 && avail < 65536 {
+						b[p+8], b[p+9] = byte(avail>>8), byte(avail)
+						// make sure the record is one the decoder looks at
+						if r.Bool() {
+							b[p], b[p+1], b[p+2], b[p+3], b[p+4], b[p+5] = 0, 3, 0, 1, 4, 9
+						} else {
+							b[p], b[p+1], b[p+2], b[p+3], b[p+4], b[p+5] = 0, 1, 0, 0, 0, 0
+						}
+					}
+				}
 			}
 		default:
 			b = r.Bytes(r.Intn(60))
